@@ -178,10 +178,31 @@ func CallMethod(obj interface{}, methodName string, args ...interface{}) (interf
 			methodName, methodType.NumIn(), len(args))
 	}
 
-	// Prepare arguments
+	// Prepare arguments. reflect.Call also panics on a zero Value (a null argument) and
+	// on a value that is not assignable to the parameter type, so a null is turned into
+	// the parameter type's nil where that exists and everything else that does not fit
+	// is rejected with an error before the call.
 	methodArgs := make([]reflect.Value, len(args))
 	for i, arg := range args {
-		methodArgs[i] = reflect.ValueOf(arg)
+		var paramType reflect.Type
+		if methodType.IsVariadic() && i >= methodType.NumIn()-1 {
+			paramType = methodType.In(methodType.NumIn() - 1).Elem()
+		} else {
+			paramType = methodType.In(i)
+		}
+		argValue := reflect.ValueOf(arg)
+		if !argValue.IsValid() {
+			switch paramType.Kind() {
+			case reflect.Interface, reflect.Ptr, reflect.Map, reflect.Slice, reflect.Func, reflect.Chan:
+				argValue = reflect.Zero(paramType)
+			default:
+				return nil, fmt.Errorf("method %s: argument %d is null, expected %s", methodName, i+1, paramType)
+			}
+		} else if !argValue.Type().AssignableTo(paramType) {
+			return nil, fmt.Errorf("method %s: argument %d has type %s, expected %s",
+				methodName, i+1, argValue.Type(), paramType)
+		}
+		methodArgs[i] = argValue
 	}
 
 	// Call the method
